@@ -1,3 +1,5 @@
-# one line per harness executable
-verif_harness(smoke smoke.cpp)
-verif_harness(c05_barriers c05_barriers.cpp)
+# every harness/targets.d/*.cmake declares the executables of one property
+file(GLOB _verif_target_files CONFIGURE_DEPENDS ${HARNESS_DIR}/targets.d/*.cmake)
+foreach(_f ${_verif_target_files})
+  include(${_f})
+endforeach()
